@@ -2,7 +2,7 @@
 From Coq Require Import List NArith ZArith Bool Lia ZifyBool ZifyNat ZifyN Arith.
 From Mila Require Import Lib.Bytes Lib.Machine Model.BinArchive Model.BinStreams Model.BinFormat Model.AssetBin
   Proofs.AMapLemmas Proofs.BinAccess Proofs.BinAccess2 Proofs.RecsCells Proofs.RecsBytes Proofs.AssetBinSchema
-  Proofs.AssetBinFlags Proofs.AssetBinWrite Proofs.AssetBinRead Proofs.AssetBinRoundTrip.
+  Proofs.AssetBinFlags Proofs.AssetBinWrite Proofs.AssetBinRead Proofs.AssetBinRoundTrip Proofs.RecsBinBridge Proofs.RecsDataSize.
 Import ListNotations.
 Local Open Scope N_scope.
 Ltac Zify.zify_post_hook ::= Z.div_mod_to_equations.
@@ -10,9 +10,10 @@ Ltac Zify.zify_post_hook ::= Z.div_mod_to_equations.
 (* strings as the file format can carry them: NUL-free byte strings (A-codec: lossless Shift-JIS) *)
 Definition strings_ok (sp : spec) : Prop :=
   (forall v, sp_name sp = Some v -> str_ok v) /\ (forall t v, get_str sp t = Some v -> str_ok v).
-(* "sizes fit": the file image (computed without sharing equal strings) stays below 2^32 *)
+(* "sizes fit": the file image (computed without sharing equal strings; 32 header bytes and the 3 spare
+   bytes C01's bound counts for c-string pool padding) stays below 2^32 *)
 Definition asset_fits (b : asset_binary) : Prop :=
-  cells_size (src_file_cells b) + cells_weight (src_file_cells b) + 32 < 2 ^ 32.
+  cells_size (src_file_cells b) + cells_weight (src_file_cells b) + 35 < 2 ^ 32.
 Definition wf_bin_bytes (b : asset_binary) : Prop :=
   wf_bin b /\ Forall strings_ok (ab_specs b) /\ asset_fits b.
 
@@ -61,6 +62,11 @@ Proof.
   - intros k bk [].
   - cbn [labels_weight]. unfold asset_fits in Hf. lia.
 Qed.
+Theorem built_archive_bound b : wf_bin_bytes b -> image_bound (arch_of (src_file_cells b) []) + 3 < 2 ^ 32.
+Proof.
+  intros (_ & _ & Hf). unfold image_bound. rewrite size_arch_of. cbn [arch_of a_text a_labels labels_weight].
+  rewrite text_weight_cells. unfold asset_fits in Hf. lia.
+Qed.
 
 (* the reader returns b on every archive observationally equal to the built one *)
 Theorem from_archive_obs_equal b a' :
@@ -72,14 +78,14 @@ Qed.
 
 Section Bytes.
 Variable m : mode.
-Hypothesis bytes_round_trip : forall a, ba_wf a ->
+Hypothesis bytes_round_trip : forall a, ba_wf a -> image_bound a + 3 < 2 ^ 32 ->
   exists f a', BinFormat.serialize m a = Ok f /\ BinFormat.from_bytes LE f = Ok a' /\ obs_equal a a'.
 
 Theorem round_trip_bytes b :
   wf_bin_bytes b ->
   exists f, serialize m b = Ok f /\ parse f = Ok b /\ (forall b', parse f = Ok b' -> serialize m b' = Ok f).
 Proof.
-  intros W. destruct (bytes_round_trip _ (built_archive_wf b W)) as (f & a' & S & P & OE).
+  intros W. destruct (bytes_round_trip _ (built_archive_wf b W) (built_archive_bound b W)) as (f & a' & S & P & OE).
   assert (Ser : serialize m b = Ok f).
   { unfold serialize. rewrite build_is_cells. cbn [bind]. rewrite arch_of_append. exact S. }
   assert (Par : parse f = Ok b).
@@ -87,6 +93,34 @@ Proof.
   exists f. split; [exact Ser|]. split; [exact Par|]. intros b' Hb'. rewrite Par in Hb'. inversion Hb'; subst. exact Ser.
 Qed.
 End Bytes.
+
+(* the premise is the bin-archive round trip C01 (Proofs/RecsBinBridge.v): no premise left *)
+Theorem round_trip_bytes_final m b :
+  wf_bin_bytes b ->
+  exists f, serialize m b = Ok f /\ parse f = Ok b /\ (forall b', parse f = Ok b' -> serialize m b' = Ok f).
+Proof. apply round_trip_bytes. intros a W B. apply recs_bin_round_trip; assumption. Qed.
+
+(* ================================================================== the data region: header word + announced record sizes + trailing word *)
+Fixpoint announced_total (specs : list spec) : N :=
+  match specs with [] => 0 | sp :: r => snd (compute_flags sp) + announced_total r end.
+Lemma records_size specs : cells_size (records c_base c_ext specs) = announced_total specs.
+Proof.
+  induction specs as [|sp r IH]; cbn [records announced_total cells_size]; [reflexivity|].
+  rewrite cells_size_app, IH, (record_cells_size c_base c_ext src_wf sp), compute_flags_eq. reflexivity.
+Qed.
+Lemma file_cells_size b : cells_size (src_file_cells b) = 4 + announced_total (ab_specs b) + 4.
+Proof.
+  unfold src_file_cells, file_cells. cbn [cells_size cell_size]. rewrite cells_size_app, records_size.
+  cbn [cells_size cell_size]. rewrite lenN_zeros. change (lenN (enc LE 4 (ab_flags b))) with 4. lia.
+Qed.
+(* ... and this is the data-size field (offset 4) of the file image: every record occupies exactly the bytes its flags announce *)
+Theorem data_size_field m b f : 4 + announced_total (ab_specs b) + 4 < 2 ^ 32 -> serialize m b = Ok f ->
+  u32_at LE f 4 = Some (4 + announced_total (ab_specs b) + 4).
+Proof.
+  intros Hs S. unfold serialize in S. rewrite build_is_cells in S. cbn [bind] in S. rewrite <- file_cells_size in *.
+  pose proof (serialize_data_size m (append_cells (ba_new LE) (src_file_cells b)) f eq_refl) as D.
+  rewrite size_append_cells in D. change (size (ba_new LE)) with 0 in D. rewrite N.add_0_l in D. exact (D Hs S).
+Qed.
 
 (* ================================================================== short form, record size, trailing word *)
 Definition is_some {A} (o : option A) : bool := match o with Some _ => true | None => false end.
@@ -208,7 +242,7 @@ Proof.
 Qed.
 Definition wf_bin_bytesb (b : asset_binary) : bool :=
   andb (andb (andb (ab_flags b <? 2 ^ 32) (forallb wf_specb (ab_specs b))) (forallb strings_okb (ab_specs b)))
-       (cells_size (src_file_cells b) + cells_weight (src_file_cells b) + 32 <? 2 ^ 32).
+       (cells_size (src_file_cells b) + cells_weight (src_file_cells b) + 35 <? 2 ^ 32).
 Lemma wf_bin_bytesb_sound b : wf_bin_bytesb b = true -> wf_bin_bytes b.
 Proof.
   unfold wf_bin_bytesb. rewrite !andb_true_iff, !forallb_forall. intros [[[H1 H2] H3] H4].
